@@ -673,18 +673,44 @@ func (d *ColumnDetector) createColumnsFromGaps(fragments []text.TextFragment, ga
 func (d *ColumnDetector) validateColumns(columns []Column) []Column {
 	var valid []Column
 
+	// Fragments of too-narrow columns seen before the first valid column
+	var pending []text.TextFragment
+
 	for _, col := range columns {
 		// Skip empty columns
 		if len(col.Fragments) == 0 {
 			continue
 		}
 
-		// Skip columns that are too narrow
+		// A region that is too narrow is not a column of its own, but its text
+		// still belongs to the page (a word sticking out past the right edge, list
+		// markers left of the body): fold it into the neighbouring column.
 		if col.BBox.Width < d.config.MinColumnWidth {
+			if len(valid) > 0 {
+				last := &valid[len(valid)-1]
+				last.Fragments = append(last.Fragments, col.Fragments...)
+				last.BBox = fragmentsBBox(last.Fragments)
+			} else {
+				pending = append(pending, col.Fragments...)
+			}
 			continue
 		}
 
+		if len(pending) > 0 {
+			col.Fragments = append(pending, col.Fragments...)
+			col.BBox = fragmentsBBox(col.Fragments)
+			pending = nil
+		}
+
 		valid = append(valid, col)
+	}
+
+	// Every region was too narrow: keep the text as a single column
+	if len(pending) > 0 {
+		valid = append(valid, Column{
+			BBox:      fragmentsBBox(pending),
+			Fragments: pending,
+		})
 	}
 
 	// Re-index columns
